@@ -100,7 +100,8 @@ class Config:
                     swap_interval=self.si, betas=self.betas, proposals=self.prop_kind, box=self.box, seed=self.seed,
                     annealer=getattr(self, 'annealer', False), reset_after_swap=getattr(self, 'ras', False),
                     public_reads_before_every_operation=(self.seed % 2 == 0),
-                    placeholder_start_before_a_resume_into_a_fresh_sampler=(self.seed % 3 == 0))
+                    placeholder_start_before_a_resume_into_a_fresh_sampler=(self.seed % 3 == 0),
+                    model_reuses_its_blob_dictionary=bool(self.blobs and self.seed % 3 == 1 and self.prop_kind != 'td'))
 
     def build(self, tracer, seed=None):
         if self.prop_kind == 'td':
@@ -108,6 +109,7 @@ class Config:
             model = TDModel(len(self.params) - 1, sigma=self.sigma, blobs=self.blobs, log=False)
         else:
             model = GaussModel(self.params, sigma=self.sigma, lo=-self.box, hi=self.box, blobs=self.blobs, log=False)
+            model.reuse_blob = self.blobs and self.seed % 3 == 1
         model = tracer.wrap_model(model) if tracer is not None else model
         rng = random.Random(self.seed)
         props = make_proposals(self.prop_kind, self.params, rng)
